@@ -19,6 +19,10 @@
 EXTENDS Integers, Sequences, FiniteSets, TLC, Json
 
 CONSTANTS Vectors,   \* set of rate vectors (sequences of positive integers, length >= 1)
+          SymEvents, \* TRUE: break ties between equal-rate EVENTS by lowest index only (symmetry
+                     \* reduction: exchanging two events of equal rate is an automorphism of this
+                     \* model and every property below is quantified over all events); ties between
+                     \* equal-probability inner NODES (which differ in structure) are always explored
           Emit       \* print one vector per distinct final tree
 
 VARIABLES rates,     \* the event rates of the node (GNode::events_)
@@ -47,6 +51,9 @@ HSize == IF N % 2 = 1 THEN N ELSE N - 1
 
 \* priority_queue::top() with comparator ">" : some element no other element is smaller than
 MinEvents(S) == {a \in S : \A b \in S : rates[a] <= rates[b]}
+TopEvents(S) == IF SymEvents
+                THEN {CHOOSE a \in MinEvents(S) : \A b \in MinEvents(S) : a <= b}
+                ELSE MinEvents(S)
 MinNodes(S) == {a \in S : \A b \in S : tree[a].prob <= tree[b].prob}
 
 Init == /\ rates \in Vectors
@@ -59,7 +66,7 @@ Init == /\ rates \in Vectors
 \* while (eventQueue.size() > 1) { left = top; pop; right = top; pop; prob = (l+r)/sum }
 PairLeaves ==
   /\ pc = "pair" /\ Cardinality(eq) > 1
-  /\ \E a \in MinEvents(eq) : \E b \in MinEvents(eq \ {a}) :
+  /\ \E a \in TopEvents(eq) : \E b \in TopEvents(eq \ {a}) :
        /\ tree' = Append(tree, [last |-> TRUE, l |-> a, r |-> b, prob |-> rates[a] + rates[b]])
        /\ eq' = eq \ {a, b}
   /\ nq' = nq \cup {Len(tree) + 1}
